@@ -257,6 +257,7 @@ static volatile uintptr_t xr_sig_pc;
 
 /* the specifier being processed, maintained by the interposed __tok_spec */
 static const char *xt_fp, *xt_ep;
+static const char *xt_in_fp, *xt_in_ep;	/* the last specifier that started inside the format proper */
 static const char *xt_fmt_lo, *xt_fmt_hi;	/* the format's bytes incl. NUL: [lo, hi) */
 static int xt_calls;
 
@@ -336,6 +337,21 @@ xt_label(char *buf, size_t bsz)
 		}
 	}
 	buf[k] = '\0';
+}
+
+/* label of the last specifier that started inside the format */
+NOASAN static void
+xt_label_last(char *buf, size_t bsz)
+{
+	const char *sfp = xt_fp, *sep = xt_ep;
+	xt_fp = xt_in_fp;
+	xt_ep = xt_in_ep;
+	xt_label(buf, bsz);
+	xt_fp = sfp;
+	xt_ep = sep;
+	if (buf[0] == '\0') {
+		snprintf(buf, bsz, "-");
+	}
 }
 
 static void
@@ -522,6 +538,13 @@ xg_signame(int sig)
 	case SIGTRAP: return "SIGTRAP";
 	default: return "fatal signal";
 	}
+}
+/* after which endings the process must be replaced: a deliberate abort() and a bounds trap (taken before
+ * the access) leave the process intact; a wild access or an interrupted loop may not */
+static inline int
+xg_must_restart(void)
+{
+	return xr_sig == SIGSEGV || xr_sig == SIGBUS || xr_sig == SIGALRM;
 }
 /* XG_BEGIN(rc) ... XG_END : rc 0 = returned, 1 = hang, 2 = fatal signal */
 #define XG_BEGIN(rc)	do { xr_sig = 0; (rc) = sigsetjmp(xg_jb, 1); if ((rc) == 0) { xg_progress++; xg_armed = 1;
